@@ -181,19 +181,35 @@ def lake_build(targets):
     return rc == 0, out
 
 
+def import_closure(module):
+    """files of the project reachable from `module` through `import` lines"""
+    seen, todo, files = set(), [module], []
+    while todo:
+        mod = todo.pop()
+        if mod in seen:
+            continue
+        seen.add(mod)
+        path = os.path.join(LEAN, *mod.split(".")) + ".lean"
+        if not os.path.exists(path):
+            continue  # core / Mathlib
+        files.append(path)
+        for line in open(path, encoding="utf-8"):
+            m = re.match(r"\s*(?:public\s+)?import\s+([A-Za-z0-9_.]+)", line)
+            if m:
+                todo.append(m.group(1))
+    return files
+
+
 def audit(prop, theorems):
     """Returns dict theorem -> {'ok': bool, 'axioms': [...], 'why': str}."""
     res = {}
-    # static grep over every Lean source of the project
+    # static grep over the Lean sources this property's theorems are built from: the import
+    # closure of Props/<Cxx>.lean inside the project (other workstreams' files are not ours to judge)
     banned_hits = []
-    for root, dirs, files in os.walk(LEAN):
-        dirs[:] = [d for d in dirs if d not in (".lake", ".audit")]
-        for f in files:
-            if f.endswith(".lean"):
-                p = os.path.join(root, f)
-                src = strip_lean_comments(open(p, encoding="utf-8").read())
-                for m in BANNED.finditer(src):
-                    banned_hits.append("%s: %s" % (os.path.relpath(p, LEAN), m.group(0).strip()))
+    for p in import_closure("Props.%s" % prop):
+        src = strip_lean_comments(open(p, encoding="utf-8").read())
+        for m in BANNED.finditer(src):
+            banned_hits.append("%s: %s" % (os.path.relpath(p, LEAN), m.group(0).strip()))
     adir = os.path.join(LEAN, ".audit")
     os.makedirs(adir, exist_ok=True)
     path = os.path.join(adir, "Audit_%s.lean" % prop)
